@@ -279,3 +279,127 @@ def time_add_unit(si: int, oi: int, as_td: bool) -> bool:
         o_td = timedelta(seconds=other)
         got = TM.add(ts, o_td if as_td else other)
         return done(got == ts + o_td and type(got) is timedelta)
+
+
+# ---------------------------------------------------------------------------------------------
+# Round-3 additions
+# ---------------------------------------------------------------------------------------------
+from fractions import Fraction  # noqa: E402
+
+import chartparse.metadata as MDM  # noqa: E402
+import chartparse.tick as TK  # noqa: E402
+from chartparse.exceptions import MissingRequiredField  # noqa: E402
+from chartparse.metadata import Metadata, Player2Instrument  # noqa: E402
+
+_KCASES = [(1, 120.0, 192), (1, 120.0, 480), (384, 120.0, 192), (384, 60.5, 192), (7, 128.2, 192), (100000, 64.1, 1),
+           (1, 1000000.0, 100000), (12345, 129.7, 480), (5, 0.001, 1), (99999999, 1.001, 3)]
+
+
+def kernel_sequence(k1: int, k2: int) -> bool:
+    """
+    pre: 0 <= k1 < len(_KCASES) and 0 <= k2 < len(_KCASES)
+    post: _
+    """
+    # the REAL kernel, natively, twice in a row (solver-chosen arguments incl. same tempo with another
+    # resolution, tempos whose thousandths are not exactly representable): each result within the K1
+    # bound of the exact value whatever was computed before
+    a, b = H.pick(_KCASES, k1), H.pick(_KCASES, k2)
+    with H.untraced():
+        ok = True
+        for (d, bpm, r) in (a, b):
+            n = round(bpm * 1000)
+            exact = Fraction(60000 * d, n * r)
+            got = Fraction(TK.seconds_from_ticks_at_bpm(d, bpm, r))
+            ok = ok and abs(got - exact) <= exact / 2**50
+        return done(ok)
+
+
+def bpm_event_dataflow_uf(prev_tick: int, tick: int, prev_us: int, prev_idx: int, u: int) -> bool:
+    """
+    pre: 0 <= prev_tick < tick and u >= 0
+    post: _
+    """
+    # arbitrary (monotone-UF) clock: the segment may last 0 us (sub-microsecond ticks)
+    import harness.h_sync as HS
+    data = BPMEvent.ParsedData(tick=tick, raw_bpm="120000")
+    prev = BPMEvent(tick=prev_tick, timestamp=AbsTime(prev_us), bpm=HS.BPMS[1], _proximal_bpm_event_index=prev_idx)
+    clk = Clock("monotone", pool=[u])
+    with H.abstract_time(clk):
+        ev = BPMEvent.from_parsed_data(data, prev, 192)
+    if not clk.assume_ok:
+        return True
+    return done(ev.timestamp.us == prev_us + u and ev.tick == tick and ev._proximal_bpm_event_index == prev_idx + 1)
+
+
+_MD_OPT = [('  Name = "x"', "name", "x"), ("  Offset = 3", "offset", 3), ("  Player2 = rhythm", "player2", Player2Instrument.RHYTHM),
+           ('  Genre = "pop"', "genre", "pop"), ("  Difficulty = 4", "difficulty", 4)]
+_MD_DEF = {"name": None, "offset": 0, "player2": Player2Instrument.BASS, "genre": "rock", "difficulty": 0}
+
+
+def metadata_twice(p0: bool, p1: bool, p2: bool, q0: bool, q1: bool, q2: bool, fail_first: bool) -> bool:
+    """
+    post: _
+    """
+    p3 = p4 = q3 = q4 = False
+    # two [Song] sections parsed one after the other: the second one's fields come from its own lines
+    # and the documented defaults only (also when the first parse failed half-way)
+    pad = _pad()
+    first = [pad + "Resolution = 192"] + [pad + _MD_OPT[i][0].strip() for i, p in enumerate([p0, p1, p2, p3, p4]) if p]
+    if fail_first:
+        first.append(pad + "Player2 = guitar")
+    second = [pad + _MD_OPT[i][0].strip() for i, q in enumerate([q0, q1, q2, q3, q4]) if q] + [pad + "Resolution = 480"]
+    try:
+        Metadata.from_chart_lines(first)
+    except ValueError:
+        if not fail_first:
+            raise
+    md = Metadata.from_chart_lines(second)
+    ok = md.resolution == 480
+    for i, q in enumerate([q0, q1, q2, q3, q4]):
+        name, val = _MD_OPT[i][1], _MD_OPT[i][2]
+        ok = ok and getattr(md, name) == (val if q else _MD_DEF[name])
+    return done(ok)
+
+
+_P2VALS = ["bass", "rhythm", "bast", "guitar", "Bass", "RHYTHM", "lead x", "b", "7"]
+
+
+def player2_any(k: int, quoted: bool) -> bool:
+    """
+    pre: 0 <= k < len(_P2VALS)
+    post: _
+    """
+    # any Player2 value: the enumeration member, or one of the documented errors - nothing else
+    v = H.pick(_P2VALS, k)
+    line = _pad() + (('Player2 = "%s"' % v) if quoted else ("Player2 = %s" % v))
+    try:
+        md = Metadata.from_chart_lines([_pad() + "Resolution = 192", line])
+    except (ValueError, MissingRequiredField):
+        return done(v not in ("bass", "rhythm"))
+    return done(v in ("bass", "rhythm") and md.player2 is Player2Instrument(v))
+
+
+from harness.h_lines import BASE_SECTION  # noqa: E402
+
+_GCOUNTS = [1, 2, 24, 25, 26, 100, 1000]
+_GSHAPES = ["garbage", "  5 = N 8 0", "  {junk}", "  } trailing", "  96 = N {2} 0", '  Name = "{Live}"', "{0}", "  5 = S 64 3"]
+
+
+def many_unparsable(gi: int, si: int, pos: int) -> bool:
+    """
+    pre: 0 <= gi < len(_GCOUNTS) and 0 <= si < len(_GSHAPES) and 0 <= pos <= 4
+    post: _
+    """
+    # a block of G identical unparsable lines (G up to 1000; shapes incl. braces) inserted at any position
+    # of a section: the parsed track is unchanged and every one of them is reported once
+    g, shape, pos = H.pick(_GCOUNTS, gi), H.pick(_GSHAPES, si), H.pick([0, 1, 2, 3, 4], pos)
+    with H.untraced():
+        be = BPMEvents(events=[BPMEvent(tick=0, timestamp=timedelta(0), bpm=120.0)], resolution=192)
+        lines = list(BASE_SECTION)
+        lines[pos:pos] = [shape] * g
+        log0, log1 = H.CountingLogger(), H.CountingLogger()
+        with H.patched((T, "logger", log0)):
+            ref = InstrumentTrack.from_chart_lines(Instrument.GUITAR, Difficulty.EXPERT, list(BASE_SECTION), be)
+        with H.patched((T, "logger", log1)):
+            got = InstrumentTrack.from_chart_lines(Instrument.GUITAR, Difficulty.EXPERT, lines, be)
+        return done(got == ref and len(log0.warnings) == 0 and len(log1.warnings) == g)
